@@ -50,10 +50,17 @@ fn run_op(q: &BufferQueue, aux: &std::cell::RefCell<BufferQueue>, op: &str) -> S
         },
         ["e", ci, rest @ ..] => match parse_string(&rest.join(" ")) {
             Some(pat) => {
+                // the comparator is user code: it may look at the queue (read-only operations) while `eat` runs
                 let r = if *ci == "1" {
-                    q.eat(&pat, u8::eq_ignore_ascii_case)
+                    q.eat(&pat, |a, b| {
+                        let _ = (q.peek(), q.is_empty());
+                        a.eq_ignore_ascii_case(b)
+                    })
                 } else {
-                    q.eat(&pat, |a, b| a == b)
+                    q.eat(&pat, |a, b| {
+                        let _ = (q.peek(), q.is_empty());
+                        a == b
+                    })
                 };
                 match r {
                     None => "e=N".into(),
